@@ -4,7 +4,9 @@ set -u
 S=/verif/seeded/$1; P=$2; T=${3:-quick}
 cd /repo || exit 9
 if [ -n "$(git status --porcelain)" ]; then echo "/repo not clean"; exit 9; fi
-trap 'git -C /repo checkout -- . ; git -C /repo clean -fdq' EXIT
+# the evidence file belongs to runs on the unchanged tree: keep it
+cp /verif/evidence/$P.json /var/tmp/evidence.$P.$$.json 2>/dev/null
+trap 'git -C /repo checkout -- . ; git -C /repo clean -fdq; [ -f /var/tmp/evidence.$P.$$.json ] && mv /var/tmp/evidence.$P.$$.json /verif/evidence/$P.json' EXIT
 git apply $S/patch.diff || { echo "patch does not apply"; exit 8; }
 cd /verif && ./check $P --tier $T > /tmp/seedrun.$1.$P.log 2>&1
 rc=$?
